@@ -5,6 +5,7 @@ use vstd::prelude::*;
 use vstd::std_specs::iter::IteratorSpec;
 use std::marker::PhantomData;
 use std::convert::TryInto;
+use std::collections::HashMap;
 
 verus! {
 /*@ import unit=U-BUF @*/
@@ -89,7 +90,7 @@ pub open spec fn mcs_ok(s: Seq<u8>) -> bool {
     && utf8_valid(s.subrange(vi_len(s) as int, vi_len(s) + mcs_len(s)))
 }
 /*@ fn file=crates/lib/src/games/minecraft/types.rs name=get_string
-use R16 R18
+use R16 R18 R17:buffer.rest().len()
 fn_attrs {
 #[verifier::loop_isolation(false)]
 }
@@ -122,9 +123,10 @@ before "String::from_utf8(text)" {
         assert(text@ =~= rest0.subrange(vl, vl + mcs_len(rest0)));
     }
 }
+before "let mut text" {
+    proof { broadcast use group_alloc; }
+}
 after "let mut text" {
-    // C13: the reservation is bounded by the bytes actually received
-    assert(length <= buffer.rest().len());
     let ghost p1 = buffer.pos();
 }
 loop 1 {
